@@ -221,6 +221,12 @@ Proof. exact fcompare_ints. Qed.
 Print Assumptions C11_numcmp_markers.
 Print Assumptions C11_numcmp_law.
 Print Assumptions C11_numcmp_ints.
+(* the comparison of finite values is the order of the rationals m * 2^e: it does not depend on the
+   common scale the two mantissas are brought to *)
+Theorem C11_numcmp_scale : forall m1 e1 m2 e2 e0, e0 <= Z.min e1 e2 ->
+  fcompare (FFin m1 e1) (FFin m2 e2) = Some (m1 * 2 ^ (e1 - e0) ?= m2 * 2 ^ (e2 - e0)).
+Proof. exact fcompare_scale_proof. Qed.
+Print Assumptions C11_numcmp_scale.
 
 (* prefix / suffix / like return the string iff it starts with / ends with / contains the pattern *)
 Theorem C11_str2_law : forall a b,
@@ -261,6 +267,18 @@ Theorem C11_select_law : forall d words idx,
   select_field (join d words) idx = nth (Z.to_nat idx) words [].
 Proof. exact select_law_proof. Qed.
 Print Assumptions C11_select_law.
+
+(* select, general form: words free of delimiters and quotes separated by arbitrary non-empty runs of
+   delimiters: the idx-th word, the empty string beyond the last; a leading delimiter makes field 0
+   empty.  (Quoted fields remain tied by the correspondence only.) *)
+Theorem C11_select_runs_law : forall w0 rest idx,
+  plain_word w0 -> Forall (fun p => delim_run (fst p) /\ plain_word (snd p)) rest -> (0 <= idx)%Z ->
+  select_field (w0 ++ tail_runs rest) idx = nth (Z.to_nat idx) (w0 :: map snd rest) [].
+Proof. exact select_runs_law_proof. Qed.
+Theorem C11_select_leading_delim : forall c s, is_sel_delim c = true -> select_field (c :: s) 0 = [].
+Proof. exact select_leading_delim_proof. Qed.
+Print Assumptions C11_select_runs_law.
+Print Assumptions C11_select_leading_delim.
 
 (* tab / $ : arguments joined by the separator *)
 Theorem C11_join_law : forall sep a r, r <> [] -> join sep (a :: r) = a ++ sep :: join sep r.
@@ -306,6 +324,21 @@ Proof. exact hf_loop_group3. Qed.
 Print Assumptions C11_hf_law.
 Print Assumptions C11_hf_grouping.
 Print Assumptions C11_hf_loop_group3.
+
+(* precision arguments of round / bytesize / bytesizesi / downscale / percent (after repair
+   C11-precision-unbounded): a constant beyond maxPrecision gives <VALUE>; translator obligation:
+   the bound covers every float64 digit and keeps the output small *)
+Theorem C11_precision_law : forall a p pv orc, static_int p = Some pv -> maxPrecision < pv ->
+  f_round [a; p] orc = Ok ErrorValue /\
+  (forall un step delim units, f_unitize un step delim units [a; p] orc = Ok ErrorValue) /\
+  f_percent [a; p] orc = Ok ErrorValue /\
+  (forall x, f_percent [a; p; x] orc = Ok ErrorValue) /\
+  (forall x y, f_percent [a; p; x; y] orc = Ok ErrorValue).
+Proof. exact precision_law_proof. Qed.
+Theorem C11_precision_bound : 1074 <= maxPrecision <= 100000.
+Proof. vm_compute. split; discriminate. Qed.
+Print Assumptions C11_precision_law.
+Print Assumptions C11_precision_bound.
 
 (* bytesize / bytesizesi (after repair C11-bytesize-uint64-wrap): for every uint64 the printed size is
    not negative (given that Go prints a non-negative mantissa for a non-negative float) *)
